@@ -204,6 +204,23 @@ static void run_buffer(Src &s, Case &c, const char *tname)
     VP_CHECK(cp == tv.ra, "archive_wire", "dump(char*,u16) %s: gives %s, documented layout %s", show(a).c_str(),
              hexs(cp).c_str(), hexs(tv.ra).c_str());
     VP_CHECK(eb == tv.rb, "archive_wire", "igris::buffer %s: dump gives %s", show(b).c_str(), hexs(eb).c_str());
+    if (a.empty() || b.empty())
+    {
+        // the empty payload as a buffer that points nowhere (default constructed, or over an empty std::vector): still a
+        // length field of 0, and the next field follows it
+        c.label("null_backed_empty_buffer");
+        std::string en, en2;
+        igris::archive::binary_string_writer wn(en);
+        igris::serialize(wn, igris::buffer());
+        igris::serialize(wn, (uint8_t)0x5A);
+        std::vector<char> none;
+        igris::archive::binary_string_writer wn2(en2);
+        igris::serialize(wn2, igris::buffer(none.data(), none.size()));
+        igris::serialize(wn2, (uint8_t)0x5A);
+        const std::string want("\0\0\x5A", 3);
+        VP_CHECK(en == want && en2 == want, "archive_wire", "empty igris::buffer without storage followed by a byte: dump gives %s / %s, documented layout %s",
+                 hexs(en).c_str(), hexs(en2).c_str(), hexs(want).c_str());
+    }
 
     std::string cat = ea + eb;
     Exact blk(cat.data(), cat.size());
